@@ -32,7 +32,8 @@ structure Cfg where
   expiration : Nat          -- uint64(cfg.Expiration.Seconds())
   skipFailed : Bool
   skipSuccessful : Bool
-  /-- `int(float64(prevHits) * (float64(resetInSec) / float64(expiration)))` (limiter_sliding.go) -/
+  /-- the weighted hits of the previous window, as a function of prevHits, resetInSec, expiration:
+  arbitrary in the generic proofs; the code's is `codeWt` (`Cfg.code`) -/
   wt : Int → Nat → Nat → Int
 
 /-- what the request brings: the key (KeyGenerator), the limit (MaxFunc), the status the downstream
@@ -124,6 +125,15 @@ def updSliding (cfg : Cfg) (e : Item) (ts : Nat) : Item :=
 
 def upd (cfg : Cfg) (e : Item) (ts : Nat) : Item :=
   if cfg.sliding then updSliding cfg e ts else updFixed cfg e ts
+
+/-- limiter_sliding.go `e.prevHits*int(resetInSec)/int(expiration)` (the weighted hits of the previous
+window; Go's `/` on `int` truncates toward zero = `Int.tdiv`). This is the weight of the real code
+(regenerated: `Facts.slidingRate`, theorem `rate_is_code`); `Cfg.wt` stays a parameter of the generic
+proofs and is instantiated with it (`Cfg.code`). -/
+def codeWt (prev : Int) (reset expiration : Nat) : Int := Int.tdiv (prev * (reset : Int)) (expiration : Int)
+
+/-- the configuration weighs the previous window the way limiter_sliding.go does -/
+def Cfg.code (cfg : Cfg) : Prop := cfg.wt = codeWt
 
 /-- `rate` (sliding) resp. `e.currHits` (fixed): what is subtracted from maxRequests -/
 def rate (cfg : Cfg) (e : Item) (ts : Nat) : Int :=
